@@ -104,6 +104,19 @@ func c11Hang(d *vCtx) error {
 			if c.Opts.Overwrite {
 				jobs = append(jobs, job{c, e2ePlan{DstErr: true, CheckLeft: true}})
 			}
+			// the peer falls silent and the user pauses and continues while the read is pending: one
+			// time-out is forgiven, the next one must end the transfer (protocol >= 3)
+			if c.Opts.Protocol >= 3 {
+				n := 0
+				for _, m := range w {
+					if m.K < 3 || (m.K%4 != 3 && !thorough) || n >= 6 {
+						continue
+					}
+					n++
+					jobs = append(jobs, job{c, e2ePlan{Silence: &e2eSil{Dir: m.Dir, K: m.K}, CheckLeft: true,
+						Pause: &e2ePause{G: m.G, Phase: "after", ResumeMs: 300, Cycles: 1, DelayMs: 400}}})
+				}
+			}
 			if thorough && bi == 0 {
 				jobs = append(jobs, job{c, e2ePlan{Silence: &e2eSil{Dir: "s2c", K: -1}, CheckLeft: true}})
 			}
